@@ -1,4 +1,4 @@
-CONSTANTS LoopTargetsSupported = TRUE  WithRewritten = TRUE
+CONSTANTS LoopTargetsSupported = TRUE  WithRewritten = TRUE  FallOffRewritten = TRUE
 INIT InitX
 NEXT Next
 CONSTRAINT Collect
